@@ -67,6 +67,7 @@ pub open spec fn ipfix_body_post<'a>(old_p: IPFixParser, new_p: IPFixParser, id:
 impl FlowSetBody {
 //@ fn src/variable_versions/ipfix.rs - /impl FlowSetBody/ parse
 //@   result: r
+//@   prerules: R28
 //@   ensures: ipfix_body_post(*old(parser), *final(parser), id, r)
 //@ end
 }
